@@ -225,6 +225,14 @@ def run(ctx):
         and paths.always_before(er, exs_[0], lambda e: True) and not er.cfg.path_exists(paths.pos_of(er, marks[0]), lambda e: e == unmarks[0]["node"], is_barrier=lambda e: e == exs_[0]) \
         and paths.must_pass(er, exs_[0], lambda e: e == unmarks[0]["node"], removed_edges=set(paths.guard_edges(er, last_atom)))
     ctx.check(j5, okm, key(er, "middle-mark"), er.where(exs_[0]) if exs_ else er.where(er.root), "a rule expanded from the middle of a sequence is not bracketed by a stack mark (pushed before, popped after, both exactly when the reference is not the last atom): recursion from inside it to an enclosing rule would be taken for right recursion")
+    # every reference gets an expansion of its own: a link into a rule's entry state goes to the instance being
+    # expanded (right recursion, rule on the stack) or to the instance expanded for this very reference - two
+    # references sharing one expansion would let a sentence enter through one and leave through the other
+    for c in links:
+        a_ = er.args(c)
+        if len(a_) >= 4 and er.canon(a_[3], subst=False).endswith("->entry"):
+            own = bool(exs_) and paths.always_before(er, c, lambda e: e in exs_)
+            ctx.check(j5, paths.guarded(er, c, on_stack) or own, key(er, "own-expansion@%d" % sum(1 for c2 in links if c2 <= c)), er.where(c), "a reference is linked to `%s` without the rule being on the expansion stack (recursion) and without an expansion made for this reference: it shares the states of another reference to the same rule, and the compiled grammar accepts sentences that go in through one reference and come out after the other" % er.canon(a_[3], subst=False))
     flag = [s_ for s_ in paths.stores(er) if s_["path"] == "embedded"]
     sets = [s_ for s_ in flag if s_["rhs"] is not None and er.constval(s_["rhs"]) == 1]
     clears = [s_ for s_ in flag if s_["rhs"] is not None and er.constval(s_["rhs"]) == 0]
